@@ -7,6 +7,10 @@ scan() -> {"random": [...], "writes": [...], "parallel": [...], "seedless": [...
             `numpy.random.<fn>(...)` other than constructing a generator (RandomState, default_rng,
             Generator, SeedSequence, get_state/set_state are reported too), and stdlib `random.<fn>(...)`
             item: {"file", "func", "call"}
+  truthy    truthiness tests on a random_state value: `if random_state:`, `if not self.random_state`,
+            `random_state or default`, `x if random_state else y` ...  The integer seed 0 is a legitimate seed and is
+            falsy, so such a test treats it as "unseeded".  (`is None` / `== 0` comparisons are not flagged.)
+            item: {"file", "func", "expr"}
   seedless  estimator classes that take a `random_state` constructor parameter but never read
             `self.random_state` outside `__init__` (nor pass `random_state=` on) in the class or its bases
             within the package.  item: {"file", "cls"}
@@ -83,10 +87,10 @@ class _FuncStack(ast.NodeVisitor):
 
 
 class _RandomWalker(_FuncStack):
-    def __init__(self, rel, np_names, random_names, from_np_random, out_random, out_par):
+    def __init__(self, rel, np_names, random_names, from_np_random, out_random, out_par, out_truthy):
         super().__init__()
         self.rel, self.np_names, self.random_names, self.from_np_random = rel, np_names, random_names, from_np_random
-        self.out_random, self.out_par = out_random, out_par
+        self.out_random, self.out_par, self.out_truthy = out_random, out_par, out_truthy
         self.parent_attr = {}      # id(node) -> attr name of the Attribute node whose .value is `node`
 
     def index_parents(self, tree):
@@ -117,6 +121,39 @@ class _RandomWalker(_FuncStack):
             if nxt is None or nxt not in ok:
                 self.out_random.append({"file": self.rel, "func": self.where(),
                                         "call": ("random." if std else "np.random.") + (nxt or "(alias)")})
+
+    @staticmethod
+    def _is_rs(node):
+        return ((isinstance(node, ast.Name) and node.id in ("random_state", "seed", "rs"))
+                or (isinstance(node, ast.Attribute) and node.attr == "random_state"))
+
+    def _truthy(self, node, how):
+        if self._is_rs(node):
+            self.out_truthy.append({"file": self.rel, "func": self.where(), "expr": how % ast.unparse(node)})
+        elif isinstance(node, ast.UnaryOp) and isinstance(node.op, ast.Not):
+            self._truthy(node.operand, "not %s" if how == "%s" else how.replace("%s", "not %s"))
+        elif isinstance(node, ast.BoolOp):
+            for v in node.values:
+                self._truthy(v, how)
+
+    def visit_If(self, node):
+        self._truthy(node.test, "if %s")
+        self.generic_visit(node)
+
+    def visit_While(self, node):
+        self._truthy(node.test, "while %s")
+        self.generic_visit(node)
+
+    def visit_IfExp(self, node):
+        self._truthy(node.test, "... if %s else ...")
+        self.generic_visit(node)
+
+    def visit_BoolOp(self, node):
+        # `random_state or default` / `random_state and f(random_state)` used as a VALUE
+        for v in node.values[:-1]:
+            if self._is_rs(v):
+                self.out_truthy.append({"file": self.rel, "func": self.where(), "expr": ast.unparse(node)[:80]})
+        self.generic_visit(node)
 
     def visit_Call(self, node):
         d = _dotted(node.func)
@@ -185,7 +222,7 @@ def _is_target_root(target, attr_node):
 
 def scan(root=None):
     root = root or repo_root()
-    out = {"random": [], "writes": [], "parallel": [], "seedless": [], "classes": 0, "files": 0}
+    out = {"random": [], "writes": [], "parallel": [], "seedless": [], "truthy": [], "classes": 0, "files": 0}
     classes = {}       # name -> list of (rel, ClassDef)  (names are unique enough inside sktime; all candidates are used)
     for path, rel in _files(root):
         try:
@@ -216,7 +253,7 @@ def scan(root=None):
                     for a in node.names:
                         if a.name not in ("Random", "SystemRandom"):
                             out["random"].append({"file": rel, "func": "<import>", "call": "from random import " + a.name})
-        w = _RandomWalker(rel, np_names, random_names - from_np_random, from_np_random, out["random"], out["parallel"])
+        w = _RandomWalker(rel, np_names, random_names - from_np_random, from_np_random, out["random"], out["parallel"], out["truthy"])
         w.index_parents(tree)
         w.visit(tree)
         for node in ast.walk(tree):
@@ -290,7 +327,7 @@ if __name__ == "__main__":
     import json
     r = scan(sys.argv[1] if len(sys.argv) > 1 else None)
     print(json.dumps({k: (v if not isinstance(v, list) else len(v)) for k, v in r.items()}))
-    for k in ("random", "seedless", "parallel"):
+    for k in ("random", "seedless", "parallel", "truthy"):
         for it in r[k]:
             print(k, it)
     seen = set()
